@@ -6,16 +6,41 @@ WIT = ["round_with_fills", "multi_fill_round", "round_with_3_fills", "market_vs_
 RULE = ("every operation history over the alphabet (clock step, limit/market submissions with and without time-to-live, "
         "cancels of live and dead orders, matching round, running switch) up to the stated depth from the empty book and "
         "from each seed book, in continuous and in batch mode, executed on a real Market; the statement of C01 is evaluated as a predicate on every matching round using the pre-round book and the returned fills; "
-        "distinct = canonical market states")
+        "distinct = canonical market states; plus every execution within deviation bound 1 (thorough: 2) of the whole-run scenario families of the "
+        "other checks (rules and shocks that rewrite orders, high-frequency agents, halts, index markets), judged against the limits as accepted")
 
 
 def factory():
     return [C01Mon()]
 
 
+def on_exc(w):
+    return None  # runs that abort belong to the checks that own the scenario families
+
+
+def r_scenarios(tier):
+    from ..families import cross_family
+    from ..scenarios_r import base_family
+    sc = dict(base_family())
+    sc.update(cross_family(tier))
+    return sc
+
+
 def run(tier, seed):
-    return run_generic("C01", tier, seed, factory, WIT, RULE)
+    res = run_generic("C01", tier, seed, factory, WIT, RULE)
+    # whole runs: every scenario family of the run-loop and event properties (orders rewritten by rules and shocks,
+    # high-frequency agents, halts, index markets), the statement evaluated on every matching round of every execution
+    from ._r import run_r
+    from ..acceptors_r import acc_C01
+    ev0 = res.coverage.get("evaluations", 0)
+    run_r("C01", tier, seed, r_scenarios(tier), [acc_C01], 1 if tier == "quick" else 2, on_exc, ["whole_run_rounds_with_fills"], RULE,
+          res=res, label="whole_runs", split=0)
+    return res
 
 
 def replay(payload):
+    if payload.get("engine") == "R":
+        from ._r import replay_r
+        from ..acceptors_r import acc_C01
+        return replay_r(r_scenarios("thorough"), [acc_C01], on_exc, payload)
     return replay_generic(payload, factory)
